@@ -200,7 +200,7 @@ func sortAliases(matchedAliases []ast.Alias) {
 				if paramType.IsReference {
 					refs++
 				}
-				if ddptypes.IsGeneric(paramType.Type) {
+				if _, isGeneric := ddptypes.CastDeeplyNestedGenerics(paramType.Type); isGeneric {
 					gen++
 				}
 			}
